@@ -67,6 +67,13 @@ CHECKS = {
                 text='Decides the necessary conditions of send / next_frame / pending_frames / drop_output / Drop / Output::{next,is_exhausted} on every path (see evidence explanation). '
                      'The history-level statement (gap-free streams, backlog == slowest lag) is NOT decided; it follows from these conditions by the paper invariant of Appendix C.3.',
                 note=TB + '; VecDeque / BTreeMap as documented; no hook is needed or added.'),
+    'C10': dict(level='proof', ref='DESIGN.md §5 C10',
+                technique='item-table rule (N = 1..=32 per trait) + path summaries over MIR: arithmetic/provenance rules per impl, forget/from_raw pairing (R8), dominance of the length assert, who-may-call',
+                text='For each of the 12 conversion traits: impls for exactly N = 1..=32; per impl and for all lengths: Some iff N | len (N of the type = constant of the test), '
+                     'new length len/N resp. len*N, pointer = the argument\'s own pointer through casts only; boxed variants re-own the forgotten allocation on every returning path. '
+                     'In-place ops: a.len()==b.len() established on every path into the unchecked loop (private, unsafe, single caller), loop 0..a.len() with a[i] = f(a[i], b[i]); '
+                     'write/add/add-with-gain/equilibrium/map are the documented element-wise frame operations; the mismatch path panics before any write.',
+                note=TB + '; from_raw_parts / Box::from_raw / array layout as documented by core/alloc.'),
 }
 
 NOT_YET = 'check not implemented yet in this revision of /verif (see DESIGN.md §10 build order)'
